@@ -91,8 +91,11 @@ def draw_spec(rng, tier="quick"):
     vst = (vtext + vtext).index(vfrag) % len(vtext)
     plasmids.append(dict(role="vector", text=vtext, inside=(vst, len(vfrag)), frag=vfrag))
     unused = None
-    if rng.random() < 0.2:
-        utext = ba.build_module(e, ovs[chain + 1], ba.clean(rng, 5, e), ovs[chain + 1] if chain == 1 else ovs[1], rng)
+    if rng.random() < 0.3:
+        if chain == 1 and rng.random() < 0.5:
+            utext = gen.rc(plasmids[0]["text"])        # the same fragment supplied once more, from the other strand
+        else:
+            utext = ba.build_module(e, ovs[chain + 1], ba.clean(rng, 5, e), ovs[chain + 1] if chain == 1 else ovs[1], rng)
         if utext is not None:
             unused = dict(role="module", text=utext, inside=(0, 0), frag="")
     ids_mode = rng.choice(["unique", "unique", "unique", "clash", "default"])
